@@ -62,6 +62,37 @@ const (
 
 var verifC31Once sync.Once
 
+// verifC31Base is the directory below which every run creates (and removes)
+// its own root. The runs create, rename, link and unlink a few files each;
+// on the disk-backed per-worker TMPDIR that is 3-4 ms of journalling per run
+// (4x the cost of everything else), so a memory-backed directory is used
+// when there is one. "" = the worker's TMPDIR. Override: VERIF_STORE_TMP.
+var verifC31Base string
+
+func verifPickBase() string {
+	if v := os.Getenv("VERIF_STORE_TMP"); v != "" {
+		return v
+	}
+	const shm = "/dev/shm"
+	probe, err := os.MkdirTemp(shm, "verifdl-probe-")
+	if err != nil {
+		return ""
+	}
+	os.Remove(probe)
+	// sweep what a killed worker may have left (a run never lasts minutes)
+	if ents, err := os.ReadDir(shm); err == nil {
+		for _, e := range ents {
+			if !strings.HasPrefix(e.Name(), "verifdl-") {
+				continue
+			}
+			if fi, err := e.Info(); err == nil && time.Since(fi.ModTime()) > 15*time.Minute {
+				os.RemoveAll(filepath.Join(shm, e.Name()))
+			}
+		}
+	}
+	return shm
+}
+
 // ---------------------------------------------------------------------------
 // helpers
 
@@ -181,10 +212,10 @@ type verifNet struct {
 	served206   bool
 	ignored200  bool
 	redirects   int
-	// snapd asked to resume from beyond the declared size (the partial grew
-	// past it from data received during this call) and the server answered
-	// with a 200 full body
-	beyondIgnored bool
+	// snapd asked to resume from beyond the declared size: the partial grew
+	// past it from data received during this very call (a partial that is
+	// already that long when Download starts never leads to a request)
+	beyondAsked bool
 }
 
 func (n *verifNet) newCall(i int) {
@@ -192,7 +223,7 @@ func (n *verifNet) newCall(i int) {
 	n.reqs, n.logical, n.faultsCall, n.redirects = 0, 0, 0, 0
 	n.pending, n.havePending = nil, false
 	n.maxPartial = verifFileSize(n.partial)
-	n.truncated, n.served206, n.ignored200, n.beyondIgnored = false, false, false, false
+	n.truncated, n.served206, n.ignored200, n.beyondAsked = false, false, false, false
 }
 
 func (n *verifNet) fire(kind string) {
@@ -303,6 +334,12 @@ func (n *verifNet) RoundTrip(req *http.Request) (*http.Response, error) {
 	if err := req.Context().Err(); err != nil {
 		n.c.Logf("  call%d rt%d %s -> context already done (%v)", n.call, n.reqs, req.URL.Path, err)
 		return nil, err
+	}
+	if rh := req.Header.Get("Range"); strings.HasPrefix(rh, "bytes=") {
+		if v, err := strconv.Atoi(strings.TrimSuffix(strings.TrimPrefix(rh, "bytes="), "-")); err == nil && v > len(n.content) && !n.beyondAsked {
+			n.beyondAsked = true
+			n.c.Count("probe:resume-offset-beyond-declared-size-requested")
+		}
 	}
 	psize := verifFileSize(n.partial)
 	if psize >= 0 && psize < n.maxPartial && !n.truncated {
@@ -434,10 +471,6 @@ func (n *verifNet) serve(req *http.Request, faults []string, psize int64) (*http
 		if c.Draw("range-ignored", 3) == 2 {
 			n.ignored200 = true
 			c.Count("range-ignored-200")
-			if start > len(full) {
-				n.beyondIgnored = true
-				c.Count("probe:resume-offset-beyond-declared-size-answered-200")
-			}
 		} else if start >= len(full) {
 			c.Count("range-unsatisfiable-416")
 			c.Logf("%s 416 (range starts at or beyond the end)", pfx)
@@ -526,6 +559,11 @@ func (n *verifNet) serve(req *http.Request, faults []string, psize int64) (*http
 		body.chunk = 1 + c.Draw("chunk-size", 700)
 	case 3:
 		body.chunk = 1 + c.Draw("chunk-size-big", 70000)
+	}
+	// at most ~48 reads per body: every read costs an lstat of the target and
+	// a write to the partial file
+	if floor := len(data) / 48; body.chunk < floor {
+		body.chunk = floor
 	}
 	if has("drip") {
 		body.drip = []time.Duration{time.Second, 40 * time.Second}[c.Draw("drip-delay", 2)]
@@ -711,9 +749,10 @@ func verifRunC31(c *verifsim.Ctx) {
 		os.Unsetenv("SNAPD_DEBUG")
 		os.Unsetenv("SNAPD_DEBUG_HTTP")
 		os.Unsetenv("SNAPPY_STORE_NO_CDN")
+		verifC31Base = verifPickBase()
 	})
 	t0 := time.Now()
-	root, err := os.MkdirTemp("", "verifdl")
+	root, err := os.MkdirTemp(verifC31Base, "verifdl-")
 	if err != nil {
 		c.Fatalf("mkdtemp: %v", err)
 	}
@@ -844,13 +883,11 @@ func verifRunC31(c *verifsim.Ctx) {
 			case derr == nil && verifSha(got) != sha:
 				class := "C31/success-wrong-digest"
 				how := fmt.Sprintf("target has %d bytes, declared size %d", len(got), size)
-				if len(got) > size && bytes.Equal(got[:size], content) && vnet.beyondIgnored {
+				if len(got) > size && bytes.Equal(got[:size], content) && vnet.beyondAsked {
 					// the expected content followed by bytes that a response
-					// of this very call wrote beyond the declared size: snapd
-					// then asked to resume from an offset beyond the declared
-					// size and got a 200 full body
+					// of this very call wrote beyond the declared size
 					class = "C31/success-stale-tail-after-overlong-response"
-					how = fmt.Sprintf("target is the expected %d bytes followed by %d stale bytes which an earlier response of this call had written beyond the declared size before its connection broke; the retry asked for a range starting beyond the declared size, the server answered 200 with the whole file, and the partial file was not truncated", size, len(got)-size)
+					how = fmt.Sprintf("target is the expected %d bytes followed by %d stale bytes which an earlier response of this call had written beyond the declared size before its connection broke; the retry asked for a range starting beyond the declared size, did not get a 206, restarted from offset 0 without truncating the partial file and accepted the (correct, shorter) body by its digest alone", size, len(got)-size)
 				}
 				c.Violate(class, "call %d: Download reported success but the SHA3-384 of the file at the target path is not the expected one: %s", call, how)
 			case derr != nil && lerr == nil:
